@@ -169,6 +169,12 @@ def eval_offline_discrete(text, variables, data, n, time=None, limit=20.0, timeo
     return guarded(go, limit, timeout_is_outcome)
 
 
+def twice(text):
+    """One specification text in four is pastified twice (pastify() of a specification without future operators is the identity)."""
+    import zlib
+    return zlib.crc32(("twice:" + text).encode()) % 4 == 0
+
+
 def run_online_discrete(text, variables, data, n, pastify=False, time=None, limit=20.0, timeout_is_outcome=False, extra_entries=None, **kw):
     """payload = list of update() return values, one per step.  `extra_entries`: (position, name) - an entry that is not an input
     of the specification (an unused log column, the output variable) is put at that position of every row: it has to be ignored."""
@@ -180,6 +186,8 @@ def run_online_discrete(text, variables, data, n, pastify=False, time=None, limi
         spec.parse()
         if pastify:
             spec.pastify()
+            if twice(text):
+                spec.pastify()
         outs = []
         for i in range(n):
             t = time[i] if time is not None else i
